@@ -202,6 +202,75 @@ func runC05Step(c *Ctx) {
 	} else {
 		c.bad("(*RuleExpression).VisitStep|own id not in scope", regs[0].mu.Pos(), "expressions of the step are checked after its own id was added to the steps scope, so a reference to the step itself is accepted: "+strings.Join(late, "; "))
 	}
+	// the id is registered whenever the step has one: apart from the `ID == nil` edge no path of VisitStep (and none of the
+	// helper that registers) returns without passing the registration
+	{
+		var skipped []string
+		anchors := map[ssa.Instruction]bool{}
+		for _, r := range regs {
+			anchors[r.anchor] = true
+		}
+		if pos, found := returnsAvoiding(fn, anchors, stepIDValues(fn, nil)); found {
+			skipped = append(skipped, p.Pos(pos))
+		}
+		for _, r := range regs {
+			if r.call == nil {
+				continue
+			}
+			h := r.mu.Parent()
+			if h == staticCallee(&r.call.Call) {
+				if pos, found := returnsAvoiding(h, map[ssa.Instruction]bool{r.mu: true}, stepIDValues(h, r.call)); found {
+					skipped = append(skipped, p.Pos(pos))
+				}
+			}
+		}
+		sort.Strings(skipped)
+		construct := "(*RuleExpression).VisitStep|registered whenever the step has an id"
+		if len(skipped) == 0 {
+			c.ok(construct, regs[0].mu.Pos(), "only the `ID == nil` edge leads to a return without the registration")
+		} else {
+			c.bad(construct, regs[0].mu.Pos(), "a step with an id can leave VisitStep without entering the steps scope, so later references to it are reported as undefined: return at "+strings.Join(skipped, ", "))
+		}
+	}
+	// nobody else adds entries to the steps scope (ids of later steps or of another job would resolve)
+	{
+		isReg := map[*ssa.MapUpdate]bool{}
+		for _, r := range regs {
+			isReg[r.mu] = true
+		}
+		var others []string
+		for _, f := range p.Funcs {
+			if !inModule(f) {
+				continue
+			}
+			fresh := map[ssa.Value]bool{}
+			for _, st := range scopeStores(f, "stepsTy") {
+				if !isNilConst(st.Val) {
+					fresh[st.Val] = true
+				}
+			}
+			eachInstr(f, func(_ *ssa.BasicBlock, _ int, in ssa.Instruction) {
+				mu, ok := in.(*ssa.MapUpdate)
+				if !ok || isReg[mu] {
+					return
+				}
+				fl, base := fieldLoad(mu.Map)
+				if fl != "ObjectType.Props" {
+					return
+				}
+				if bf, _ := fieldLoad(base); bf == "RuleExpression.stepsTy" || fresh[base] {
+					others = append(others, FuncName(f)+" at "+p.Pos(mu.Pos()))
+				}
+			})
+		}
+		sort.Strings(others)
+		construct := "RuleExpression.stepsTy|entries added by the registration only"
+		if len(others) == 0 {
+			c.ok(construct, regs[0].mu.Pos(), "no other store into the Props of the steps scope")
+		} else {
+			c.bad(construct, regs[0].mu.Pos(), "the steps scope also receives entries outside the registration of the step just checked (a step then sees ids that are not those of earlier steps): "+strings.Join(others, "; "))
+		}
+	}
 	// the key under which it is registered is the lower-cased id of this step
 	okKey := false
 	if call, ok := regs[0].mu.Key.(*ssa.Call); ok && calleeFullName(&call.Call) == "strings.ToLower" {
